@@ -537,6 +537,12 @@ def step (st : State) (toks : List String) : State × String :=
     | _, _, _, _ => (st, "bad-op")
   -- `tree <label> <tree id> <roster label> <member position/node id:arity,…>`: NewTreeNode + NewTree
   | ["tree", l, tid, r, items] => treeOp st l tid r items
+  -- `sibling <roster label> <server label>`: another roster is derived (`Concat`) from the base roster this
+  -- one was derived from — rosters are values: nothing changes
+  | ["sibling", r, sl] =>
+    match r.toNat?.bind (lookup st.rosters), sl.toNat? with
+    | some _, some sl => if sl ≥ 48 then (st, "bad-op") else (st, "ok")
+    | _, _ => (st, "bad-op")
   -- `gtree <label> <tree id> <roster label> <N> <root position> <items>`: the tree is made by the real
   -- `GenerateNaryTreeWithRoot(N, ro.List[root])` (property C12 says which tree that is: the complete
   -- N-ary tree in breadth-first order over the roster rotated to the root — `items` spell it out,
